@@ -78,6 +78,11 @@ CHECKS.update({
             'all device reply scripts of length <=5 over {CNXN, malformed CNXN, AUTH token, other AUTH, noise, silence} x 0-2 keys (11 718 runs): connection attributes, signed tokens, key order, '
             'public-key offer, exception classes; open/close/remote-close/illegal-packet histories with id limits 3-6 (exhaustion, reuse, wrap-around), thorough: production limit wrapped by real open/close pairs',
             'trusted: TLC, scripted fake device; STREAM_ID_LIMIT module constant set to the model constant in quick', 'DESIGN.md 5/C15'),
+    'C18': ('TLA+ (PlusCal) spec Subscribe.tla: NoLostUpdate, StaysSet, WakesAll, Termination checked by TLC; executions of the real mixin under a deterministic scheduler validated by TLC against Subscribe_trace.tla (trace validation)',
+            'TLC: 2 watchers x 2 updaters x 2 changes, safety + termination under weak fairness (snapshot-before-register variant violates NoLostUpdate). Real code: every interleaving with <=1 (quick) / '
+            '<=2 (thorough, capped) preemptions of the four threads on the real SubscribableStateMixin; each run is recorded (lock acquire/release, snapshot, change, event set, wake-up) and the batch is '
+            'validated by one TLC run re-using Subscribe\'s actions; plus whole test runs with two watcher threads under seeded random schedules and in-body probes for measurement/log/dut_id notifications',
+            'trusted: TLC, vf/sched.py (cooperative primitives log lock and event operations), vf/explore.py, vf/tracecheck.py', 'DESIGN.md 5/C18'),
 })
 
 NOT_APPLICABLE = {
